@@ -1,7 +1,6 @@
 # TODO: Remove this when we migrate to Python 3.14+.
 from __future__ import annotations
 
-import functools
 from dataclasses import dataclass
 from typing import TYPE_CHECKING
 
@@ -25,8 +24,10 @@ class Scope11Profile:
     number: ThrustModeValues | None
 
 
-@functools.cache
 def scope11_profile(edb: EDBEntry) -> Scope11Profile:
+    # Not cached here: an EDBEntry hashes on engine/uid only and is mutable, so
+    # a cache keyed on the entry returns the profile of the smoke numbers it
+    # held when first seen. calculate_PMnvolEI_scope11 is cached on the values.
     mass = calculate_PMnvolEI_scope11(edb.SN_matrix, edb.engine_type, edb.BP_Ratio)
     # TODO: Fix.
     # number = edb.PMnvolEIN_best_ICAOthrust
